@@ -190,6 +190,7 @@ def check(ctx, strict_verdict=False):
     from rules import lib_panic
     lib_panic.report(ctx, eng, "PANIC", entry=FN)
     lib_panic.report(ctx, e2, "PANIC", entry=CONSUME)
+    field_hints(ctx)
     for nm, (h, p, e, o) in (("dlt_message_intern", a), ("dlt_consume_msg", c)):
         R.instance("HINT", "%s: %d linear/entailed hints within 1..shortfall, %d joined hints not decided" % (nm, h, p))
         R.instance("ERR", "%s: %d hard-error exit partition(s) on incomplete input, each justified by a value check" % (nm, e))
@@ -202,3 +203,44 @@ def check(ctx, strict_verdict=False):
         R.violation("HINT", "FLOOR|hint", "only %d Incomplete exits were seen (floor 10)" % (a[0] + a[1]), kind="ANCHOR-MISSING")
     if a[3] < 8:
         R.violation("ORDER", "FLOOR|order", "only %d Ok exits were seen (floor 8)" % a[3], kind="ANCHOR-MISSING")
+
+
+def field_hints(ctx, rule="HINT-F"):
+    """Hints of the fixed-size field extraction shared by all ids and strings, decided on the helper's own exits (inside
+    the message parser they are joined with other hints at the helper's return): every Incomplete(Size(n)) exit has
+    1 <= n <= size - len(s), i.e. never more than the field itself still misses — a necessary condition of the
+    message-level bound, since the field may be the last one of the message."""
+    from engine.interp import Engine
+    F, R = ctx.facts, ctx.report
+    FIELD = "parse::dlt_zero_terminated_string_intern"
+    b = F.body(FIELD)
+    if b is None:
+        R.notes.append("%s: %s not found (not decided)" % (rule, FIELD))
+        return
+    eng = Engine(F)
+    eng.key_all = True
+    try:
+        outs = eng.call_path(FIELD, eng.symbolic_args(b, names=["s", "size"]))
+    except Exception as ex:
+        R.notes.append("%s: %s could not be analysed (%r) (not decided)" % (rule, FIELD, ex))
+        return
+    size, slen = Lin.sym("size"), Lin.sym("len(s)")
+    n = 0
+    for st, rv in outs:
+        if not isinstance(rv, Enum):
+            continue
+        for vi, fs in rv.variants:
+            if vi == 0:
+                continue
+            for ei, en, hint in err_parts(eng, st, fs[0]):
+                if en != "Incomplete" or hint in ("unknown", None):
+                    continue
+                if hint == "?":
+                    R.notes.append("%s: a hint of %s is not a linear expression (not decided)" % (rule, FIELD))
+                    continue
+                n += 1
+                if st.holds(hint.sub(Lin.const(1)), eng) and st.holds(size.sub(slen).sub(hint), eng):
+                    R.obligation(rule, "%s|needed|%s" % (FIELD, hint), "discharged", "1 <= %s <= size - len(s)" % hint)
+                    R.instance(rule, "%s: needed = %s within 1..(size - len(s))" % (FIELD, hint))
+                else:
+                    R.violation(rule, "%s|needed|%s" % (FIELD, _shape(hint)), "the fixed-size field extraction reports needed = %s, which is not provably within 1 .. size - len(s): when the field is the last one of the message the hint exceeds the bytes actually missing" % hint, function=FIELD, file=b["span"]["f"], line=b["span"]["l"])
